@@ -56,8 +56,13 @@ type memFile struct {
 	nfaults    int
 }
 
+var verifZeros []byte
+
 func newMemFile(capacity int) *memFile {
-	return &memFile{data: make([]byte, 0, capacity), zeros: make([]byte, capacity), record: true}
+	if len(verifZeros) < capacity {
+		verifZeros = make([]byte, capacity)
+	}
+	return &memFile{data: make([]byte, 0, capacity), zeros: verifZeros, record: true}
 }
 
 func (m *memFile) fail(kind int) bool {
